@@ -224,7 +224,8 @@ class Kauri(ClusterMixin, BaseEstimator, ABC):
         n_leaves = 1
         n_clusters = 1
 
-        leaves_to_explore = [0]
+        # The root, like any other node, may only be split if it holds enough samples
+        leaves_to_explore = [0] if len(X) >= self.min_samples_split else []
         last_gain = np.inf
 
         leaf2node = {0: 0}
